@@ -3,26 +3,48 @@
 the model `ESR.Gather.makeChanges` / `flaggedIndices` interprets and that `Props/C13b.lean` compares with the shape
 its theorems are proved for.
 
-A tiny symbolic execution of the function body (straight-line assignments, tuple assignments, `+=`, the
-`if len(i) == 0: … else: …` case split on a `split_idx` result, `if rank == 0:` blocks around a gather/bcast pair)
-gives, at the statements that matter, the value of each index variable as a term over
-`total` (`len(all_fun)` of the global list / `nfun`), `rank`, `size`, `localLen` (length of the rank's own block):
+The two functions are first normalised (`_norm_c13.normalise`: one level of helper inlining, conditional expression ->
+if/else, chained assignment, append loops -> comprehensions, negated tests, `chain.from_iterable`) and then read by a small
+abstract interpreter.  It knows
 
-make_changes  : count   = what each rank sends to `comm.gather(start_idx)`
+  index terms  over `total` (`len(all_fun)` of the global list / `nfun`), `rank`, `size`, `localLen` (length of the rank's own
+               block), integer literals, `+ - *`, `split_idx(n, r, p)[0]`, `[-1]` (= `[1]`), and the case split every use site
+               makes on the emptiness of a `split_idx` result (`len(v) == 0`, `not v`, `v == []`, ... either polarity, as a
+               statement or as a conditional expression);
+  per-rank data `comm.gather(x, root=0)` / `comm.bcast(…, root=0)` / `comm.allgather(x)` of an index term (a list indexed by
+               rank; rank 0's `[0] + …`, `np.cumsum(…)`, `….cumsum()` on an ndarray, `…[k:]` are recorded as steps) or of a
+               local list; `comm.scatter` of `[X[lo[i]:hi[i]] for i in range(size)]` (or `for a, b in zip(lo, hi)`);
+  make_changes  the changed-index list `[i for i in range(len(str_fun)) if str_fun[i] != all_fun[base+i]]` (also over
+               `enumerate(str_fun)`), the selections `[X[c] for c in chidx]` (also written directly with the same filter), and
+               the update loop: a loop over the ranks (`range(size)`, `enumerate`/`zip` of gathered lists) whose inner loops
+               (`range(len(<changes>[i]))`, `enumerate`, `zip`) write `all_*[chidx[i][k] + start_idx[i + shift]] =
+               <changes>[i][k]`, through any local aliases; `None if v is None else v.copy()` in any spelling is the value v;
+  check_results the flagging loop `for i in range(len(block))` / `enumerate(block)` appending `[i + offset, block[i]]`, the
+               gather at rank 0, the flattening (`itertools.chain(*…)`, nested comprehension, `sum(…, [])`) and the mapping of
+               the first components through the shuffle index list (loop or comprehension).
+
+and produces
+make_changes  : count   = what each rank sends to the gather of per-rank counts
                 steps   = what rank 0 does to the gathered list (`[0] + …`, `np.cumsum`, `[k:]`)
                 cmpBase = `imin` of `str_fun[i] != all_fun[imin+i]`
                 useShift= `k` in `j = chidx[i] + start_idx[i+k]`
 check_results : sliceLo/sliceHi = the gathered bounds of `all_fun[imin[i]:imax[i]]` that is scattered
                 offset  = `imin` of `to_change.append([i+imin, all_fun[i]])`
-Anything it cannot read is an ExtractError (fail closed).  Values it cannot express are poisoned and only raise when used.
+Anything it cannot read is an ExtractError (fail closed).  Values it cannot express are poisoned and only raise when used;
+a statement that can only be there to mutate (`x[i] = …`, `x.sort()`, `f(x)` as a statement) poisons what it touches.
 """
 import ast
 import extract
 from extract import ExtractError
+from extractors import _norm_c13 as norm
 
 FILE = "esr/generation/simplifier.py"
 POISON = ("poison",)
 ARITH = {ast.Add: "add", ast.Sub: "sub", ast.Mult: "mul"}
+IX_HEADS = ("total", "rank", "size", "localLen", "lit", "add", "sub", "mul", "splitLo", "splitHi", "ifSplitEmpty")
+ARRAY_WRAPPERS = ("atleast_1d", "array", "squeeze", "asarray")
+NO_EFFECT_CALLS = ("print", "collect", "Barrier", "barrier", "flush")
+LOCAL_LISTS = ("chidx", "sel", "flagged")
 
 
 def _is_call(e, *names):
@@ -49,31 +71,289 @@ def _root0(e):
 def _const_int(e):
     if isinstance(e, ast.Constant) and isinstance(e.value, int) and not isinstance(e.value, bool):
         return e.value
-    if isinstance(e, ast.UnaryOp) and isinstance(e.op, ast.USub) and isinstance(e.operand, ast.Constant) and isinstance(e.operand.value, int):
+    if isinstance(e, ast.UnaryOp) and isinstance(e.op, ast.USub) and isinstance(e.operand, ast.Constant) and isinstance(e.operand.value, int) \
+            and not isinstance(e.operand.value, bool):
         return -e.operand.value
     return None
 
 
+def _single_nonneg(e):
+    """k for the literal `[k]` / `(k,)` with an integer k >= 0"""
+    if isinstance(e, (ast.List, ast.Tuple)) and len(e.elts) == 1:
+        k = _const_int(e.elts[0])
+        if k is not None and k >= 0:
+            return k
+    return None
+
+
 def _is_ix(t):
-    return isinstance(t, tuple) and t and t[0] in ("total", "rank", "size", "localLen", "lit", "add", "sub", "mul", "splitLo", "splitHi", "ifSplitEmpty")
+    return isinstance(t, tuple) and bool(t) and t[0] in IX_HEADS
+
+
+def _chv(v):
+    """the changed-index list a local list value is aligned with"""
+    if v[0] == "chidx":
+        return v
+    if v[0] == "sel":
+        return v[2]
+    return None
+
+
+def _rank0_test(t):
+    """True: the THEN branch runs on rank 0 only; False: the ELSE branch does; None: not a test on `rank`"""
+    if isinstance(t, ast.Name) and t.id == "rank":
+        return False
+    if isinstance(t, ast.UnaryOp) and isinstance(t.op, ast.Not) and isinstance(t.operand, ast.Name) and t.operand.id == "rank":
+        return True
+    if isinstance(t, ast.Compare) and len(t.ops) == 1 and isinstance(t.left, ast.Name) and t.left.id == "rank":
+        k, op = _const_int(t.comparators[0]), type(t.ops[0])
+        if (op, k) in ((ast.Eq, 0), (ast.Lt, 1), (ast.LtE, 0)):
+            return True
+        if (op, k) in ((ast.NotEq, 0), (ast.Gt, 0), (ast.GtE, 1)):
+            return False
+    return None
 
 
 class Exec(object):
-    def __init__(self, fn, env, lens, seeded):
+    def __init__(self, fn, env, lens, seeded, mc=None):
         self.fn = fn
-        self.env = dict(env)          # name -> term | ("split", n, r, p) | ("gath", ix, steps) | ("rank0", v) | ("block",) | POISON
+        self.env = dict(env)          # name -> abstract value (see module docstring) | POISON
         self.lens = dict(lens)        # list name -> term of its len()
         self.seeded = set(seeded)     # names whose meaning is fixed by the hand model; only trivially reassigned
-        self.slices = {}              # list name -> (lo term, hi term) of `[X[lo[i]:hi[i]] for i in range(size)]` on rank 0
-        self.rank0 = False
+        self.slices = {}              # list name -> (lo term, hi term, source list name) of `[X[lo[i]:hi[i]] for i in range(size)]` on rank 0
+        self.arrays = set()           # names known to hold an ndarray
+        self.mc = mc                  # make_changes: dict(all_fun=name, str_fun=name, local=[names of the three local lists])
+        self.dead = False             # a return/raise was executed on this path
+        self.none_means = None        # inside `if v is None:`: the value v
+        self.not_none = None          # inside `if v is not None:`: the value v
+        self.npos = [0]               # inner-loop counter (shared with forks)
 
     # ---- expressions ----
+    def split_test(self, t):
+        """emptiness test on a split_idx result: (split term, True if the test HOLDS for the empty result), else None"""
+        if isinstance(t, ast.UnaryOp) and isinstance(t.op, ast.Not):
+            r = self.split_test(t.operand)
+            return (r[0], not r[1]) if r else None
+        if isinstance(t, ast.Compare) and len(t.ops) == 1:
+            op, rhs = type(t.ops[0]), t.comparators[0]
+            lv = self.expr(t.left)
+            if lv[0] == "splitLen":                            # len(v) <op> k
+                k = _const_int(rhs)
+                if k is not None:
+                    if (op, k) in ((ast.Eq, 0), (ast.Lt, 1), (ast.LtE, 0)):
+                        return lv[1], True
+                    if (op, k) in ((ast.Gt, 0), (ast.NotEq, 0), (ast.GtE, 1)):
+                        return lv[1], False
+                return None
+            if lv[0] == "split" and isinstance(rhs, ast.List) and not rhs.elts and op in (ast.Eq, ast.NotEq):
+                return lv, op is ast.Eq
+            return None
+        v = self.expr(t) if isinstance(t, (ast.Name, ast.Call)) else POISON
+        if v[0] == "splitTest":                                # a name holding such a test
+            return v[1], v[2]
+        if v[0] in ("split", "splitLen"):                      # a list is true iff it is non-empty; so is its length
+            return (v if v[0] == "split" else v[1]), False
+        return None
+
+    def length(self, v):
+        """abstract length of a list value: ("size", d) = size + d entries, ("chlen", chidx value) = as many as that rank's changes"""
+        if v[0] == "pr":
+            return ("size", 0)
+        if v[0] == "gath":
+            d = 0
+            for s in v[2]:
+                d += 1 if s[0] == "prepend" else -s[1] if s[0] == "dropFirst" else 0
+                if d < 0:
+                    return None
+            return ("size", d)
+        if v[0] == "prAt" and _chv(v[1]) is not None:
+            return ("chlen", _chv(v[1]))
+        if v[0] == "shifted":
+            return ("chlen", v[1])
+        return None
+
+    def iter_value(self, it, pid=None):
+        """(abstract length, abstract element) of iterating over the expression `it`, or None"""
+        if _is_call(it, "range") and isinstance(it.func, ast.Name) and len(it.args) == 1 and not it.keywords:
+            n = self.expr(it.args[0])
+            if n == ("size",):
+                return ("size", 0), ("rankvar", 0)
+            if n[0] == "lenof" and n[1][0] == "chlen" and pid is not None:
+                return n[1], ("posvar", n[1][1], pid)
+            return None
+        if _is_call(it, "enumerate") and isinstance(it.func, ast.Name) and len(it.args) == 1 and not it.keywords:
+            r = self.iter_value(it.args[0], pid)
+            if not r:
+                return None
+            ln, el = r
+            if ln == ("size", 0):
+                return ln, ("tuple", ("rankvar", 0), el)
+            if ln[0] == "chlen" and pid is not None:
+                return ln, ("tuple", ("posvar", ln[1], pid), el)
+            return None
+        if _is_call(it, "zip") and isinstance(it.func, ast.Name) and it.args and not it.keywords:
+            rs = [self.iter_value(a, pid) for a in it.args]
+            if any(r is None for r in rs):
+                return None
+            lens = [r[0] for r in rs]
+            if all(l[0] == "size" for l in lens) and min(l[1] for l in lens) == 0:
+                ln = ("size", 0)                       # zip stops at the shortest: `size` entries
+            elif all(l == lens[0] for l in lens) and lens[0][0] == "chlen":
+                ln = lens[0]
+            else:
+                return None
+            return ln, ("tuple",) + tuple(r[1] for r in rs)
+        v = self.expr(it)
+        ln = self.length(v)
+        if ln is None:
+            return None
+        if v[0] == "pr":
+            return ln, ("prAt", v[1])
+        if v[0] == "gath":
+            return ln, ("gathAt", v, 0)
+        if v[0] in ("prAt", "shifted") and pid is not None:
+            return ln, ("elem", v, pid)
+        return None
+
+    def bind(self, target, val):
+        if isinstance(target, ast.Name):
+            self.assign(target.id, val)
+            return
+        if isinstance(target, (ast.Tuple, ast.List)) and val[0] == "tuple" and len(val) - 1 == len(target.elts):
+            for t, v in zip(target.elts, val[1:]):
+                self.bind(t, v)
+            return
+        for n in ast.walk(target):
+            if isinstance(n, ast.Name):
+                self.assign(n.id, POISON)
+
+    def comprehension(self, e):
+        g = e.generators[0]
+        # rank 0: `[X[lo[i]:hi[i]] for i in range(size)]` / `[X[a:b] for a, b in zip(lo, hi)]`
+        if len(e.generators) == 1 and not g.ifs and isinstance(e.elt, ast.Subscript) and isinstance(e.elt.slice, ast.Slice) \
+                and isinstance(e.elt.value, ast.Name) and e.elt.slice.step is None and e.elt.slice.lower is not None and e.elt.slice.upper is not None:
+            sl = e.elt.slice
+            lo = hi = None
+            if isinstance(g.target, ast.Name) and _is_call(g.iter, "range") and len(g.iter.args) == 1 and self.expr(g.iter.args[0]) == ("size",) \
+                    and all(isinstance(b, ast.Subscript) and isinstance(b.slice, ast.Name) and b.slice.id == g.target.id for b in (sl.lower, sl.upper)):
+                lo, hi = self.expr(sl.lower.value), self.expr(sl.upper.value)
+            elif isinstance(g.target, (ast.Tuple, ast.List)) and len(g.target.elts) == 2 and all(isinstance(x, ast.Name) for x in g.target.elts) \
+                    and _is_call(g.iter, "zip") and isinstance(g.iter.func, ast.Name) and len(g.iter.args) == 2 and not g.iter.keywords \
+                    and g.target.elts[0].id != g.target.elts[1].id \
+                    and isinstance(sl.lower, ast.Name) and sl.lower.id == g.target.elts[0].id and isinstance(sl.upper, ast.Name) and sl.upper.id == g.target.elts[1].id:
+                lo, hi = self.expr(g.iter.args[0]), self.expr(g.iter.args[1])
+            if lo is not None and lo[0] == "gath" and hi[0] == "gath" and not lo[2] and not hi[2]:
+                return ("slices", lo[1], hi[1], e.elt.value.id)
+            return POISON
+        # flattening `[y for x in X for y in x]`
+        if len(e.generators) == 2 and not g.ifs and not e.generators[1].ifs and isinstance(g.target, ast.Name) and isinstance(e.generators[1].target, ast.Name) \
+                and isinstance(e.generators[1].iter, ast.Name) and e.generators[1].iter.id == g.target.id and isinstance(e.elt, ast.Name) \
+                and e.elt.id == e.generators[1].target.id and e.elt.id != g.target.id:
+            v = self.expr(g.iter)
+            return ("flat", v[1]) if v[0] == "pr" else POISON
+        if len(e.generators) != 1:
+            return POISON
+        # `[[S[a], b] for a, b in L]` on the flattened list
+        if not g.ifs and isinstance(g.target, (ast.Tuple, ast.List)) and len(g.target.elts) == 2 and all(isinstance(x, ast.Name) for x in g.target.elts) \
+                and isinstance(e.elt, ast.List) and len(e.elt.elts) == 2:
+            a, b = g.target.elts[0].id, g.target.elts[1].id
+            x0, x1 = e.elt.elts
+            v = self.expr(g.iter)
+            if (a != b and v[0] == "flat" and isinstance(x1, ast.Name) and x1.id == b and isinstance(x0, ast.Subscript) and isinstance(x0.value, ast.Name)
+                    and x0.value.id not in (a, b) and isinstance(x0.slice, ast.Name) and x0.slice.id == a):
+                return ("mapped", v, x0.value.id)
+            return POISON
+        if self.mc is None:
+            return POISON
+        return self.mc_comprehension(e, g)
+
+    def mc_comprehension(self, e, g):
+        """make_changes: changed-index list and the selections of the local lists"""
+        mc = self.mc
+        # `[X[c] for c in chidx]` / `[c for c in chidx]`
+        if not g.ifs and isinstance(g.target, ast.Name) and isinstance(g.iter, ast.Name):
+            ch = self.expr(g.iter)
+            if ch[0] != "chidx":
+                return POISON
+            c = g.target.id
+            if isinstance(e.elt, ast.Name) and e.elt.id == c:
+                return ch
+            if isinstance(e.elt, ast.Subscript) and isinstance(e.elt.value, ast.Name) and e.elt.value.id in mc["local"] and e.elt.value.id != c \
+                    and isinstance(e.elt.slice, ast.Name) and e.elt.slice.id == c and self.env.get(e.elt.value.id) == ("lparam", e.elt.value.id):
+                return ("sel", e.elt.value.id, ch)
+            return POISON
+        # `… for i in range(len(str_fun)) if str_fun[i] != all_fun[base+i]` / `… for i, f in enumerate(str_fun) if f != all_fun[base+i]`
+        if len(g.ifs) != 1:
+            return POISON
+        var, alias = None, None
+        if isinstance(g.target, ast.Name) and _is_call(g.iter, "range") and isinstance(g.iter.func, ast.Name) and len(g.iter.args) == 1 \
+                and not g.iter.keywords and self.expr(g.iter.args[0]) == ("localLen",):
+            var = g.target.id
+        elif isinstance(g.target, (ast.Tuple, ast.List)) and len(g.target.elts) == 2 and all(isinstance(x, ast.Name) for x in g.target.elts) \
+                and _is_call(g.iter, "enumerate") and isinstance(g.iter.func, ast.Name) and len(g.iter.args) == 1 and not g.iter.keywords \
+                and isinstance(g.iter.args[0], ast.Name) and g.iter.args[0].id == mc["str_fun"] and self.env.get(mc["str_fun"]) == ("lparam", mc["str_fun"]):
+            var, alias = g.target.elts[0].id, g.target.elts[1].id
+            if var == alias:
+                return POISON
+        if var is None or var in self.mc["local"] or var == mc["all_fun"] or alias in (mc["all_fun"],) + tuple(mc["local"]):
+            return POISON
+        for nm in mc["local"] + [mc["all_fun"]]:
+            if self.env.get(nm) != ("lparam", nm):
+                return POISON
+
+        def is_local(x, lst):
+            if alias is not None and lst == mc["str_fun"] and isinstance(x, ast.Name) and x.id == alias:
+                return True
+            return (isinstance(x, ast.Subscript) and isinstance(x.value, ast.Name) and x.value.id == lst and isinstance(x.slice, ast.Name)
+                    and x.slice.id == var)
+        c = g.ifs[0]
+        if not (isinstance(c, ast.Compare) and len(c.ops) == 1 and isinstance(c.ops[0], ast.NotEq)):
+            return POISON
+        sides = [c.left, c.comparators[0]]
+        loc = [s for s in sides if is_local(s, mc["str_fun"])]
+        glob = [s for s in sides if isinstance(s, ast.Subscript) and isinstance(s.value, ast.Name) and s.value.id == mc["all_fun"]]
+        if len(loc) != 1 or len(glob) != 1:
+            return POISON
+        idx = glob[0].slice
+        if isinstance(idx, ast.Name) and idx.id == var:
+            base = ("lit", 0)
+        else:
+            b = _plus_loopvar(idx, var)
+            if b is None or var in norm.names(b) or (alias is not None and alias in norm.names(b)):
+                return POISON
+            base = self.expr(b)
+        if not _is_ix(base):
+            return POISON
+        ch = ("chidx", base)
+        if isinstance(e.elt, ast.Name) and e.elt.id == var:
+            return ch
+        for lst in mc["local"]:
+            if is_local(e.elt, lst):
+                return ("sel", lst, ch)
+        return POISON
+
     def expr(self, e):
         if isinstance(e, ast.Name):
             return self.env.get(e.id, POISON)
         c = _const_int(e)
         if c is not None:
             return ("lit", c)
+        if isinstance(e, ast.Constant) and e.value is None:
+            return self.none_means if self.none_means is not None else ("none",)
+        if isinstance(e, ast.List) and not e.elts:
+            return ("emptylist",)
+        if isinstance(e, ast.Tuple) and e.elts and not any(isinstance(x, ast.Starred) for x in e.elts):
+            return ("tuple",) + tuple(self.expr(x) for x in e.elts)
+        if isinstance(e, ast.Compare) or (isinstance(e, ast.UnaryOp) and isinstance(e.op, ast.Not)):
+            sp = self.split_test(e)
+            return ("splitTest", sp[0], sp[1]) if sp is not None else POISON
+        if isinstance(e, ast.IfExp):
+            sp = self.split_test(e.test)
+            a, b = self.expr(e.body), self.expr(e.orelse)
+            if sp is not None and _is_ix(a) and _is_ix(b):
+                emp, non = (a, b) if sp[1] else (b, a)
+                return ("ifSplitEmpty",) + sp[0][1:] + (emp, non)
+            return POISON
         if isinstance(e, ast.BinOp) and type(e.op) in ARITH:
             # list concatenation `[0] + gathered` (rank 0)
             if isinstance(e.op, ast.Add) and isinstance(e.left, ast.List) and len(e.left.elts) == 1 and _const_int(e.left.elts[0]) is not None:
@@ -84,55 +364,117 @@ class Exec(object):
             a, b = self.expr(e.left), self.expr(e.right)
             if _is_ix(a) and _is_ix(b):
                 return (ARITH[type(e.op)], a, b)
+            if isinstance(e.op, ast.Add):
+                for x, y in ((a, b), (b, a)):
+                    if x[0] == "rankvar" and y[0] == "lit" and x[1] + y[1] >= 0:
+                        return ("rankvar", x[1] + y[1])
+                    # numpy: list + np.int64 adds elementwise
+                    if x[0] == "prAt" and x[1][0] == "chidx" and y[0] == "gathAt":
+                        return ("shifted", x[1], y[1], y[2])
+                    if x[0] == "elem" and x[1][0] == "prAt" and x[1][1][0] == "chidx" and y[0] == "gathAt":
+                        return ("elem", ("shifted", x[1][1], y[1], y[2]), x[2])
             return POISON
-        if _is_call(e, "len") and len(e.args) == 1 and isinstance(e.args[0], ast.Name):
-            nm = e.args[0].id
-            if self.env.get(nm, (None,))[0] == "block":
-                return ("localLen",)
-            return self.lens.get(nm, POISON)
-        if _is_call(e, "atleast_1d", "array", "squeeze", "asarray") and e.args:
+        if _is_call(e, "len") and isinstance(e.func, ast.Name) and len(e.args) == 1 and not e.keywords:
+            if isinstance(e.args[0], ast.Name):
+                nm = e.args[0].id
+                v = self.env.get(nm, (None,))
+                if v[0] == "block":
+                    return ("localLen",)
+                if v[0] == "split":
+                    return ("splitLen", v)
+                if v == ("lparam", nm) or nm not in self.env:
+                    return self.lens.get(nm, POISON)
+            ln = self.length(self.expr(e.args[0]))
+            if ln == ("size", 0):
+                return ("size",)
+            return ("lenof", ln) if ln is not None else POISON
+        if _is_call(e, *ARRAY_WRAPPERS) and e.args:
             return self.expr(e.args[0])          # shape-only wrappers (dtype keyword ignored)
-        if _is_call(e, "cumsum") and len(e.args) == 1:
+        if _is_call(e, "cumsum"):
+            arg = None
+            if len(e.args) == 1 and not (isinstance(e.func, ast.Attribute) and not (isinstance(e.func.value, ast.Name) and e.func.value.id in ("np", "numpy"))):
+                arg = e.args[0]                                       # np.cumsum(x)
+            elif not e.args and isinstance(e.func, ast.Attribute) and self.is_array(e.func.value):
+                arg = e.func.value                                    # x.cumsum() on an ndarray
+            if arg is not None:
+                g = self.expr(arg)
+                return ("gath", g[1], g[2] + (("cumsum",),)) if g[0] == "gath" else POISON
+            return POISON
+        # `np.concatenate(([0], x))`, `np.append([0], x)`, `np.insert(x, 0, 0)`: a leading constant
+        pre = None
+        if _is_call(e, "concatenate") and len(e.args) == 1 and not e.keywords and isinstance(e.args[0], (ast.Tuple, ast.List)) and len(e.args[0].elts) == 2:
+            pre = e.args[0].elts
+        elif _is_call(e, "append") and isinstance(e.func, ast.Attribute) and isinstance(e.func.value, ast.Name) and e.func.value.id in ("np", "numpy") \
+                and len(e.args) == 2 and not e.keywords:
+            pre = e.args
+        if pre is not None:
+            k = _single_nonneg(pre[0])
+            g = self.expr(pre[1]) if k is not None else POISON
+            return ("gath", g[1], g[2] + (("prepend", k),)) if g[0] == "gath" else POISON
+        if _is_call(e, "insert") and isinstance(e.func, ast.Attribute) and isinstance(e.func.value, ast.Name) and e.func.value.id in ("np", "numpy") \
+                and len(e.args) == 3 and not e.keywords and _const_int(e.args[1]) == 0 and (_const_int(e.args[2]) is not None and _const_int(e.args[2]) >= 0):
             g = self.expr(e.args[0])
-            return ("gath", g[1], g[2] + (("cumsum",),)) if g[0] == "gath" else POISON
-        if _is_call(e, "split_idx") and len(e.args) == 3:
+            return ("gath", g[1], g[2] + (("prepend", _const_int(e.args[2])),)) if g[0] == "gath" else POISON
+        if _is_call(e, "copy") and isinstance(e.func, ast.Attribute) and not e.args and not e.keywords:
+            v = self.expr(e.func.value)
+            return v if v[0] == "elem" and self.not_none == v else POISON      # `.copy()` only where the value is known not to be None
+        if _is_call(e, "split_idx") and len(e.args) == 3 and not e.keywords:
             a = [self.expr(x) for x in e.args]
             return ("split",) + tuple(a) if all(_is_ix(x) for x in a) else POISON
+        if _is_call(e, "list") and isinstance(e.func, ast.Name) and len(e.args) == 1 and _is_call(e.args[0], "chain") \
+                and len(e.args[0].args) == 1 and isinstance(e.args[0].args[0], ast.Starred) and not e.args[0].keywords:
+            v = self.expr(e.args[0].args[0].value)
+            return ("flat", v[1]) if v[0] == "pr" else POISON
+        if _is_call(e, "sum") and isinstance(e.func, ast.Name) and len(e.args) == 2 and isinstance(e.args[1], ast.List) and not e.args[1].elts:
+            v = self.expr(e.args[0])
+            return ("flat", v[1]) if v[0] == "pr" else POISON
         if isinstance(e, ast.Subscript):
             v = self.expr(e.value)
+            if isinstance(e.slice, ast.Slice):
+                if v[0] == "gath" and e.slice.upper is None and e.slice.step is None and e.slice.lower is not None:
+                    k = _const_int(e.slice.lower)
+                    if k is not None and k >= 0:
+                        return ("gath", v[1], v[2] + (("dropFirst", k),))
+                return POISON
             if v[0] == "split":
                 k = _const_int(e.slice)
                 if k == 0:
                     return ("splitLo",) + v[1:]
-                if k == -1:
+                if k in (-1, 1):                 # a non-empty result is `[first, last]`
                     return ("splitHi",) + v[1:]
                 return POISON
-            if v[0] == "gath" and isinstance(e.slice, ast.Slice) and e.slice.upper is None and e.slice.step is None and e.slice.lower is not None:
-                k = _const_int(e.slice.lower)
-                if k is not None and k >= 0:
-                    return ("gath", v[1], v[2] + (("dropFirst", k),))
+            if v[0] == "tuple":
+                k = _const_int(e.slice)
+                return v[1 + k] if k is not None and 0 <= k < len(v) - 1 else POISON
+            ix = self.expr(e.slice)
+            if v[0] == "gath" and ix[0] == "rankvar":
+                return ("gathAt", v, ix[1])
+            if v[0] == "pr" and ix == ("rankvar", 0) and _chv(v[1]) is not None:
+                return ("prAt", v[1])
+            if v[0] in ("prAt", "shifted") and ix[0] == "posvar" and self.length(v) == ("chlen", ix[1]):
+                return ("elem", v, ix[2])
             return POISON
         if _comm(e, "gather") and e.args and _root0(e):
             v = self.expr(e.args[0])
-            return ("rank0", ("gath", v, ())) if _is_ix(v) else POISON
+            if _is_ix(v):
+                return ("rank0", ("gath", v, ()))
+            return ("rank0", ("pr", v)) if v[0] in LOCAL_LISTS else POISON
+        if _comm(e, "allgather") and len(e.args) == 1 and not e.keywords:
+            v = self.expr(e.args[0])
+            if _is_ix(v):
+                return ("gath", v, ())
+            return ("pr", v) if v[0] in LOCAL_LISTS else POISON
         if _comm(e, "bcast") and e.args and _root0(e):
             v = self.expr(e.args[0])
             return v[1] if v[0] == "rank0" else POISON
         if _comm(e, "scatter") and e.args and _root0(e) and isinstance(e.args[0], ast.Name) and e.args[0].id in self.slices:
             return ("block",) + self.slices[e.args[0].id]
-        # rank 0: `[X[lo[i]:hi[i]] for i in range(size)]`
-        if isinstance(e, ast.ListComp) and len(e.generators) == 1 and not e.generators[0].ifs and isinstance(e.elt, ast.Subscript) \
-                and isinstance(e.elt.slice, ast.Slice) and isinstance(e.elt.value, ast.Name):
-            g = e.generators[0]
-            sl = e.elt.slice
-            if (isinstance(g.target, ast.Name) and _is_call(g.iter, "range") and len(g.iter.args) == 1 and self.expr(g.iter.args[0]) == ("size",)
-                    and sl.step is None and all(isinstance(b, ast.Subscript) and isinstance(b.slice, ast.Name) and b.slice.id == g.target.id
-                                                for b in (sl.lower, sl.upper))):
-                lo, hi = self.expr(sl.lower.value), self.expr(sl.upper.value)
-                if lo[0] == "gath" and hi[0] == "gath" and not lo[2] and not hi[2]:
-                    return ("slices", lo[1], hi[1])
-            return POISON
+        if isinstance(e, ast.ListComp):
+            return self.comprehension(e)
         return POISON
+
+    def is_array(self, e):
+        return (isinstance(e, ast.Name) and e.id in self.arrays) or _is_call(e, "array", "asarray", "atleast_1d", "cumsum")
 
     # ---- statements ----
     def assign(self, name, val, node=None):
@@ -145,29 +487,37 @@ class Exec(object):
                     self.fn.name, name, getattr(node, "lineno", 0)))
             return
         self.slices.pop(name, None)
+        self.arrays.discard(name)
+        if node is not None and self.is_array(node):
+            self.arrays.add(name)
         if val[0] == "slices":
             self.slices[name] = val[1:]
             val = POISON
         self.env[name] = val
 
-    def split_test(self, t):
-        """`len(V) == 0` etc. on a split_idx result: returns (split term, True if the THEN branch is the empty case)"""
-        if isinstance(t, ast.Compare) and len(t.ops) == 1 and _is_call(t.left, "len") and len(t.left.args) == 1:
-            v = self.expr(t.left.args[0])
-            k = _const_int(t.comparators[0])
-            if v[0] == "split" and k is not None:
-                op = type(t.ops[0])
-                if (op, k) in ((ast.Eq, 0), (ast.Lt, 1), (ast.LtE, 0)):
-                    return v, True
-                if (op, k) in ((ast.Gt, 0), (ast.NotEq, 0), (ast.GtE, 1)):
-                    return v, False
-        return None
+    def poison_mutated(self, e):
+        """an expression statement is only there for its effect: unless it is a print / gc.collect / Barrier, whatever it
+        mentions may have been mutated and is unknown afterwards"""
+        v = e.value if isinstance(e, ast.Expr) else e
+        if isinstance(v, ast.Constant) or _is_call(v, *NO_EFFECT_CALLS):
+            return
+        for n in ast.walk(v):
+            if isinstance(n, ast.Name) and n.id in self.env and n.id not in ("rank", "size"):
+                if n.id in self.seeded:
+                    raise ExtractError("%s: `%s` is used in a statement made for its effect (line %d)" % (self.fn.name, n.id, e.lineno))
+                if self.env[n.id][0] == "lparam":
+                    raise ExtractError("%s: the parameter `%s` is used in a statement made for its effect (line %d)" % (self.fn.name, self.env[n.id][1], e.lineno))
+                self.assign(n.id, POISON)
 
     def run(self, body, stop=None):
         """execute statements until (not including) the statement `stop`; returns True if stop was reached"""
         for st in body:
             if st is stop:
                 return True
+            if self.dead:
+                if stop is not None and any(s is stop for s in ast.walk(st)):
+                    raise ExtractError("%s: the statement looked for follows an unconditional return (line %d)" % (self.fn.name, st.lineno))
+                continue
             if isinstance(st, ast.Assign) and len(st.targets) == 1:
                 tg = st.targets[0]
                 if isinstance(tg, ast.Name):
@@ -183,62 +533,236 @@ class Exec(object):
                         if v[0] == "split" and len(names) == 2:
                             self.assign(names[0], ("splitLo",) + v[1:])
                             self.assign(names[1], ("splitHi",) + v[1:])
+                        elif v[0] == "tuple" and len(v) - 1 == len(names):
+                            for nm, x in zip(names, v[1:]):
+                                self.assign(nm, x)
                         else:
                             for nm in names:
                                 self.assign(nm, POISON)
                 else:
-                    for n in ast.walk(tg):
-                        if isinstance(n, ast.Name) and isinstance(n.ctx, ast.Store):
-                            self.assign(n.id, POISON)
+                    self.store_into(tg, st)
+            elif isinstance(st, ast.Assign):
+                for tg in st.targets:
+                    self.store_into(tg, st)
             elif isinstance(st, ast.AugAssign) and isinstance(st.target, ast.Name):
                 a, b = self.env.get(st.target.id, POISON), self.expr(st.value)
                 self.assign(st.target.id, (ARITH[type(st.op)], a, b) if type(st.op) in ARITH and _is_ix(a) and _is_ix(b) else POISON)
+            elif isinstance(st, (ast.AugAssign, ast.AnnAssign)):
+                self.store_into(st.target, st)
             elif isinstance(st, ast.If):
-                sp = self.split_test(st.test)
-                is_rank0 = (isinstance(st.test, ast.Compare) and len(st.test.ops) == 1 and isinstance(st.test.ops[0], ast.Eq)
-                            and isinstance(st.test.left, ast.Name) and st.test.left.id == "rank" and _const_int(st.test.comparators[0]) == 0)
-                a, b = self.fork(), self.fork()
-                if is_rank0:
-                    for k, v in list(a.env.items()):
-                        if v[0] == "rank0":
-                            a.env[k] = v[1]
-                ra = a.run(st.body, stop)
-                rb = b.run(st.orelse, stop)
-                if ra or rb:
-                    raise ExtractError("%s: the statement looked for sits under a condition (line %d)" % (self.fn.name, st.lineno))
-                for nm in set(a.env) | set(b.env):
-                    va, vb = a.env.get(nm, POISON), b.env.get(nm, POISON)
-                    if is_rank0 and vb == ("rank0", va):
-                        self.env[nm] = vb                      # untouched rank-0 value
-                    elif va == vb:
-                        self.env[nm] = va
-                    elif is_rank0:
-                        self.env[nm] = ("rank0", va)           # only usable through `comm.bcast(…, root=0)`
-                    elif sp is not None and _is_ix(va) and _is_ix(vb):
-                        emp, non = (va, vb) if sp[1] else (vb, va)
-                        self.env[nm] = ("ifSplitEmpty",) + sp[0][1:] + (emp, non)
-                    else:
-                        self.env[nm] = POISON
-                self.slices.update(a.slices)
+                self.run_if(st, stop)
+            elif isinstance(st, ast.For) and self.map_loop(st):
+                pass
             elif isinstance(st, (ast.For, ast.While, ast.Try, ast.With)):
-                # not interpreted: everything assigned inside is unknown afterwards
+                # not interpreted: everything assigned or possibly mutated inside is unknown afterwards
                 for n in ast.walk(st):
-                    if isinstance(n, ast.Name) and isinstance(n.ctx, ast.Store):
+                    if isinstance(n, ast.Name) and isinstance(n.ctx, (ast.Store, ast.Del)):
                         if n.id in self.seeded:
                             raise ExtractError("%s: `%s` assigned inside a loop (line %d)" % (self.fn.name, n.id, st.lineno))
-                        self.env[n.id] = POISON
-                if any(s is stop for s in ast.walk(st)):
+                        self.assign(n.id, POISON)
+                    elif isinstance(n, (ast.Subscript, ast.Attribute)) and isinstance(n.ctx, (ast.Store, ast.Del)):
+                        self.store_into(n, st)
+                    elif isinstance(n, ast.Expr):
+                        self.poison_mutated(n)
+                if isinstance(st, ast.For) and isinstance(st.iter, ast.Name) and isinstance(st.target, ast.Name):
+                    # `for r in L: r[0] = …` changes the entries of L
+                    if any(isinstance(n, (ast.Subscript, ast.Attribute)) and isinstance(n.ctx, (ast.Store, ast.Del)) and isinstance(n.value, ast.Name)
+                           and n.value.id == st.target.id and not (isinstance(n, ast.Subscript) and _const_int(n.slice) not in (None, 0, -2))
+                           for n in ast.walk(st)):
+                        self.assign(st.iter.id, POISON)
+                if stop is not None and any(s is stop for s in ast.walk(st)):
                     raise ExtractError("%s: the statement looked for sits inside a compound statement (line %d)" % (self.fn.name, st.lineno))
             elif isinstance(st, ast.Delete):
                 for t in st.targets:
                     if isinstance(t, ast.Name):
-                        self.env[t.id] = POISON
+                        if t.id in self.seeded:
+                            raise ExtractError("%s: `%s` deleted (line %d)" % (self.fn.name, t.id, st.lineno))
+                        self.assign(t.id, POISON)
+                    else:
+                        self.store_into(t, st)
+            elif isinstance(st, ast.Expr):
+                self.poison_mutated(st)
+            elif isinstance(st, (ast.Return, ast.Raise)):
+                self.dead = True
+            elif isinstance(st, (ast.Pass, ast.Import, ast.ImportFrom, ast.Assert)):
+                pass
+            elif isinstance(st, (ast.Global, ast.Nonlocal, ast.FunctionDef, ast.ClassDef, ast.Break, ast.Continue)):
+                raise ExtractError("%s: %s statement (line %d) is outside the fragment the extractor reads" % (self.fn.name, type(st).__name__, st.lineno))
+            else:
+                raise ExtractError("%s: unrecognised statement %s (line %d)" % (self.fn.name, type(st).__name__, st.lineno))
+        return False
+
+    def store_into(self, tg, st):
+        """`x[i] = …`, `x.a = …`, `del x[i]`: x is unknown afterwards; tuple / starred targets: every part"""
+        if isinstance(tg, (ast.Tuple, ast.List)):
+            for x in tg.elts:
+                self.store_into(x, st)
+            return
+        if isinstance(tg, ast.Starred):
+            return self.store_into(tg.value, st)
+        t = tg
+        while isinstance(t, (ast.Subscript, ast.Attribute)):
+            t = t.value
+        if not isinstance(t, ast.Name):
+            return
+        if t.id in self.seeded:
+            raise ExtractError("%s: `%s` is modified (line %d)" % (self.fn.name, t.id, st.lineno))
+        if t is not tg and self.env.get(t.id, POISON)[0] == "lparam":
+            raise ExtractError("%s: the parameter `%s` is modified through `%s` (line %d)" % (self.fn.name, self.env[t.id][1], t.id, st.lineno))
+        if t is tg or t.id in self.env:
+            self.assign(t.id, POISON)
+
+    def run_if(self, st, stop):
+        sp = self.split_test(st.test)
+        r0 = _rank0_test(st.test)
+        a, b = self.fork(), self.fork()
+        on0 = a if r0 else b if r0 is False else None
+        if on0 is not None:
+            for k, v in list(on0.env.items()):
+                if v[0] == "rank0":
+                    on0.env[k] = v[1]
+        ra = a.run(st.body, stop)
+        rb = b.run(st.orelse, stop)
+        if ra or rb:
+            raise ExtractError("%s: the statement looked for sits under a condition (line %d)" % (self.fn.name, st.lineno))
+        if a.dead and b.dead:
+            self.dead = True
+            return
+        if a.dead or b.dead:
+            if on0 is not None:
+                raise ExtractError("%s: return/raise under a condition on `rank` (line %d)" % (self.fn.name, st.lineno))
+            live = b if a.dead else a
+            self.env, self.slices, self.arrays = live.env, live.slices, live.arrays
+            return
+        if r0 is False:
+            a, b = b, a                                        # a: rank 0, b: the other ranks
+        def merge(va, vb):
+            if on0 is not None and vb == ("rank0", va):
+                return vb                                      # untouched rank-0 value
+            if va == vb:
+                return va
+            if on0 is not None:
+                return ("rank0", va)                           # only usable through `comm.bcast(…, root=0)`
+            if sp is not None and _is_ix(va) and _is_ix(vb):
+                emp, non = (va, vb) if sp[1] else (vb, va)
+                return ("ifSplitEmpty",) + sp[0][1:] + (emp, non)
+            if va[0] == "tuple" and vb[0] == "tuple" and len(va) == len(vb):
+                return ("tuple",) + tuple(merge(x, y) for x, y in zip(va[1:], vb[1:]))
+            return POISON
+        for nm in set(a.env) | set(b.env):
+            self.env[nm] = merge(a.env.get(nm, POISON), b.env.get(nm, POISON))
+        if on0 is not None:
+            self.slices.update(a.slices)
+        else:
+            self.slices = {k: v for k, v in a.slices.items() if b.slices.get(k) == v}
+        self.arrays = a.arrays & b.arrays if on0 is None else a.arrays
+
+    def map_loop(self, st):
+        """rank 0: `for r in L: r[0] = S[r[0]]` on the flattened list of flagged entries"""
+        if not (isinstance(st.iter, ast.Name) and isinstance(st.target, ast.Name) and not st.orelse and len(st.body) == 1):
+            return False
+        v = self.env.get(st.iter.id, POISON)
+        s = st.body[0]
+        r = st.target.id
+        if v[0] != "flat" or not (isinstance(s, ast.Assign) and len(s.targets) == 1):
+            return False
+        first = lambda x: isinstance(x, ast.Subscript) and isinstance(x.value, ast.Name) and x.value.id == r and _const_int(x.slice) == 0
+        if first(s.targets[0]) and isinstance(s.value, ast.Subscript) and isinstance(s.value.value, ast.Name) and s.value.value.id not in (r, st.iter.id) \
+                and first(s.value.slice):
+            self.assign(st.iter.id, ("mapped", v, s.value.value.id))
+            self.assign(r, POISON)
+            return True
         return False
 
     def fork(self):
-        x = Exec(self.fn, self.env, self.lens, self.seeded)
+        x = Exec(self.fn, self.env, self.lens, self.seeded, self.mc)
         x.slices = dict(self.slices)
+        x.arrays = set(self.arrays)
+        x.none_means, x.not_none, x.npos = self.none_means, self.not_none, self.npos
         return x
+
+    # ---- make_changes: the update loop ----
+    def none_test(self, t):
+        """`X is None` / `X is not None` on a per-item value: (value, True if the test says "is None")"""
+        if isinstance(t, ast.Compare) and len(t.ops) == 1 and isinstance(t.ops[0], (ast.Is, ast.IsNot)) \
+                and isinstance(t.comparators[0], ast.Constant) and t.comparators[0].value is None:
+            v = self.expr(t.left)
+            if v[0] == "elem":
+                return v, isinstance(t.ops[0], ast.Is)
+        return None
+
+    def update_body(self, body, writes, depth, targets):
+        for st in body:
+            if isinstance(st, ast.Assign) and len(st.targets) == 1 and isinstance(st.targets[0], ast.Name):
+                if st.targets[0].id in targets:
+                    raise ExtractError("make_changes: `%s` is rebound inside the update loop (line %d)" % (st.targets[0].id, st.lineno))
+                self.assign(st.targets[0].id, self.expr(st.value), st.value)
+            elif isinstance(st, ast.Assign) and len(st.targets) == 1 and isinstance(st.targets[0], (ast.Tuple, ast.List)) \
+                    and all(isinstance(x, ast.Name) and x.id not in targets for x in st.targets[0].elts):
+                self.bind(st.targets[0], self.expr(st.value))
+            elif isinstance(st, ast.Assign) and len(st.targets) == 1 and isinstance(st.targets[0], ast.Subscript) \
+                    and isinstance(st.targets[0].value, ast.Name) and st.targets[0].value.id in targets and not isinstance(st.targets[0].slice, ast.Slice):
+                lst = st.targets[0].value.id
+                if self.env.get(lst) != ("lparam", lst):
+                    raise ExtractError("make_changes: `%s` is not the parameter any more (line %d)" % (lst, st.lineno))
+                val, idx = self.expr(st.value), self.expr(st.targets[0].slice)
+                if not (idx[0] == "elem" and idx[1][0] == "shifted"):
+                    raise ExtractError("make_changes: index written in the update loop is not `chidx[i][k] + start_idx[i + shift]` (line %d)" % st.lineno)
+                if not (val[0] == "elem" and val[1][0] == "prAt" and val[1][1][0] == "sel" and val[2] == idx[2] and val[1][1][2] == idx[1][1]):
+                    raise ExtractError("make_changes: value written in the update loop is not `<changes>[i][k]` of the same rank and position (line %d)" % st.lineno)
+                if lst in writes:
+                    raise ExtractError("make_changes: `%s` is written twice in the update loop (line %d)" % (lst, st.lineno))
+                writes[lst] = (idx[1], val[1][1][1])
+            elif isinstance(st, ast.If) and self.none_test(st.test) is not None:
+                v, isnone = self.none_test(st.test)
+                a, b = self.fork(), self.fork()
+                wa, wb = {}, {}
+                (a if isnone else b).none_means = v
+                (b if isnone else a).not_none = v
+                a.update_body(st.body, wa, depth, targets)
+                b.update_body(st.orelse, wb, depth, targets)
+                if wa != wb:
+                    raise ExtractError("make_changes: the two branches of `if … is None` do not write the same entries (line %d)" % st.lineno)
+                for k in wa:
+                    if k in writes:
+                        raise ExtractError("make_changes: `%s` is written twice in the update loop (line %d)" % (k, st.lineno))
+                writes.update(wa)
+                for nm in set(a.env) | set(b.env):
+                    self.env[nm] = a.env.get(nm, POISON) if a.env.get(nm, POISON) == b.env.get(nm, POISON) else POISON
+            elif isinstance(st, ast.For) and depth == 0 and not st.orelse:
+                self.npos[0] += 1
+                it = self.iter_value(st.iter, pid=self.npos[0])
+                if it is None or it[0][0] != "chlen":
+                    raise ExtractError("make_changes: inner loop does not run over the changes of rank i (`range(len(<changes>[i]))`, enumerate, zip) (line %d)" % st.lineno)
+                for nm in norm.stored_names(st):
+                    if nm in targets:
+                        raise ExtractError("make_changes: `%s` is rebound inside the update loop (line %d)" % (nm, st.lineno))
+                    self.assign(nm, POISON)
+                self.bind(st.target, it[1])
+                self.update_body(st.body, writes, 1, targets)
+                for nm in norm.stored_names(st):
+                    self.assign(nm, POISON)
+            elif isinstance(st, ast.Expr) and _is_call(st.value, "print") and isinstance(st.value.func, ast.Name):
+                pass
+            elif isinstance(st, ast.Pass):
+                pass
+            else:
+                raise ExtractError("make_changes: statement in the update loop that the extractor cannot read (%s, line %d)" % (type(st).__name__, st.lineno))
+
+    def update_loop(self, loop, targets):
+        if loop.orelse:
+            raise ExtractError("make_changes: update loop has an else clause (line %d)" % loop.lineno)
+        it = self.iter_value(loop.iter)
+        if it is None or it[0] != ("size", 0):
+            raise ExtractError("make_changes: the update loop does not run over the ranks (`range(size)`, or the gathered lists) (line %d)" % loop.lineno)
+        for nm in norm.stored_names(loop):
+            if nm in targets:
+                raise ExtractError("make_changes: `%s` is rebound inside the update loop (line %d)" % (nm, loop.lineno))
+            self.assign(nm, POISON)                          # nothing is carried from one iteration to the next
+        self.bind(loop.target, it[1])
+        writes = {}
+        self.update_body(loop.body, writes, 0, targets)
+        return writes
 
 
 def _need_ix(t, what):
@@ -251,6 +775,23 @@ def _stores(node, name):
     return any(isinstance(n, ast.Name) and n.id == name and isinstance(n.ctx, (ast.Store, ast.Del)) for n in ast.walk(node))
 
 
+def _touches(node, name):
+    """node rebinds `name`, stores into it, or calls a method on it / passes it to a call in statement position"""
+    for n in ast.walk(node):
+        if isinstance(n, ast.Name) and n.id == name and isinstance(n.ctx, (ast.Store, ast.Del)):
+            return True
+        if isinstance(n, (ast.Subscript, ast.Attribute)) and isinstance(n.ctx, (ast.Store, ast.Del)):
+            t = n
+            while isinstance(t, (ast.Subscript, ast.Attribute)):
+                t = t.value
+            if isinstance(t, ast.Name) and t.id == name:
+                return True
+        if isinstance(n, ast.Expr) and isinstance(n.value, ast.Call) and not _is_call(n.value, *NO_EFFECT_CALLS):
+            if any(isinstance(m, ast.Name) and m.id == name for m in ast.walk(n.value)):
+                return True
+    return False
+
+
 def _plus_loopvar(e, var):
     """e == var + X or X + var -> X"""
     if isinstance(e, ast.BinOp) and isinstance(e.op, ast.Add):
@@ -261,172 +802,121 @@ def _plus_loopvar(e, var):
     return None
 
 
-def read_make_changes(fn):
+def read_make_changes(fn, module=None):
+    fn = norm.normalise(fn, module)
     params = [a.arg for a in fn.args.args]
-    if len(params) != 6:
+    if len(params) != 6 or len(set(params)) != 6 or fn.args.vararg or fn.args.kwarg or fn.args.kwonlyargs:
         raise ExtractError("make_changes: expected 6 parameters, found %d" % len(params))
     all_fun, all_sym, all_inv, str_fun, sym_fun, inv_fun = params
-    ex = Exec(fn, {"rank": ("rank",), "size": ("size",)}, {all_fun: ("total",), str_fun: ("localLen",)}, [])
-    # the final update loop: `for i in range(size): j = chidx[i] + start_idx[...]`
-    loops = [st for st in fn.body if isinstance(st, ast.For) and _is_call(st.iter, "range") and len(st.iter.args) == 1
-             and isinstance(st.iter.args[0], ast.Name) and st.iter.args[0].id == "size" and isinstance(st.target, ast.Name)]
-    if len(loops) != 1:
-        raise ExtractError("make_changes: expected exactly one top-level `for … in range(size)` update loop, found %d" % len(loops))
-    loop = loops[0]
-    for p in params[:3]:
-        for st in fn.body:
-            if st is loop:
-                break
-            if _stores(st, p) or any(isinstance(n, ast.Subscript) and isinstance(n.ctx, ast.Store) and isinstance(n.value, ast.Name) and n.value.id == p
-                                     for n in ast.walk(st)):
-                raise ExtractError("make_changes: `%s` is modified before the update loop (line %d)" % (p, st.lineno))
-    ex.run(fn.body, stop=loop)
-    # chidx comprehension
-    comps = []
-    for st in fn.body:
-        if st is loop:
-            break
-        if isinstance(st, ast.Assign) and isinstance(st.value, ast.ListComp) and len(st.value.generators) == 1 and len(st.value.generators[0].ifs) == 1:
-            g = st.value.generators[0]
-            c = g.ifs[0]
-            if isinstance(c, ast.Compare) and len(c.ops) == 1 and isinstance(c.ops[0], ast.NotEq):
-                comps.append((st, g, c))
-    if len(comps) != 1:
-        raise ExtractError("make_changes: expected one `[i for i in range(len(str_fun)) if str_fun[i] != all_fun[imin+i]]`, found %d candidates" % len(comps))
-    st, g, c = comps[0]
-    var = g.target.id if isinstance(g.target, ast.Name) else None
-    ok = (var and isinstance(st.value.elt, ast.Name) and st.value.elt.id == var and _is_call(g.iter, "range") and len(g.iter.args) == 1
-          and _is_call(g.iter.args[0], "len") and isinstance(g.iter.args[0].args[0], ast.Name) and g.iter.args[0].args[0].id == str_fun)
-    sides = [c.left, c.comparators[0]]
-    loc = [s for s in sides if isinstance(s, ast.Subscript) and isinstance(s.value, ast.Name) and s.value.id == str_fun
-           and isinstance(s.slice, ast.Name) and s.slice.id == var]
-    glob = [s for s in sides if isinstance(s, ast.Subscript) and isinstance(s.value, ast.Name) and s.value.id == all_fun]
-    if not ok or len(loc) != 1 or len(glob) != 1:
-        raise ExtractError("make_changes: changed-index comprehension has an unrecognised shape (line %d)" % st.lineno)
-    base = _plus_loopvar(glob[0].slice, var)
-    if base is None:
-        raise ExtractError("make_changes: `all_fun[…]` in the changed-index comprehension is not `loop variable + offset` (line %d)" % st.lineno)
-    chname = st.targets[0].id if isinstance(st.targets[0], ast.Name) else None
-    # the comprehension is evaluated with the environment at that statement
-    ex2 = Exec(fn, {"rank": ("rank",), "size": ("size",)}, {all_fun: ("total",), str_fun: ("localLen",)}, [])
-    ex2.run(fn.body, stop=st)
-    cmp_base = _need_ix(ex2.expr(base), "make_changes: offset in `all_fun[offset+i]`")
-    # changes lists `[X[c] for c in chidx]`
-    changes = {}
-    for s2 in fn.body:
-        if s2 is loop:
-            break
-        if isinstance(s2, ast.Assign) and isinstance(s2.targets[0], ast.Name) and isinstance(s2.value, ast.ListComp) and s2 is not st:
-            gg = s2.value.generators[0]
-            el = s2.value.elt
-            if (len(s2.value.generators) == 1 and not gg.ifs and isinstance(gg.iter, ast.Name) and gg.iter.id == chname and isinstance(gg.target, ast.Name)
-                    and isinstance(el, ast.Subscript) and isinstance(el.value, ast.Name) and isinstance(el.slice, ast.Name) and el.slice.id == gg.target.id):
-                changes[s2.targets[0].id] = el.value.id
-    # update loop
-    i = loop.target.id
-    if not loop.body or not isinstance(loop.body[0], ast.Assign) or not isinstance(loop.body[0].targets[0], ast.Name):
-        raise ExtractError("make_changes: update loop does not start with `j = chidx[i] + start_idx[i]` (line %d)" % loop.lineno)
-    jst = loop.body[0]
-    j = jst.targets[0].id
-    v = jst.value
-    if not (isinstance(v, ast.BinOp) and isinstance(v.op, ast.Add) and all(isinstance(s, ast.Subscript) and isinstance(s.value, ast.Name) for s in (v.left, v.right))):
-        raise ExtractError("make_changes: `%s = …` is not a sum of two subscripts (line %d)" % (j, jst.lineno))
-    parts = {s.value.id: s for s in (v.left, v.right)}
-    if chname not in parts or len(parts) != 2:
-        raise ExtractError("make_changes: `%s = …` does not add an offset to `%s[i]` (line %d)" % (j, chname, jst.lineno))
-    if not (isinstance(parts[chname].slice, ast.Name) and parts[chname].slice.id == i):
-        raise ExtractError("make_changes: `%s[…]` is not indexed by the rank loop variable (line %d)" % (chname, jst.lineno))
-    sname = [k for k in parts if k != chname][0]
-    sidx = parts[sname].slice
-    if isinstance(sidx, ast.Name) and sidx.id == i:
-        shift = 0
-    else:
-        x = _plus_loopvar(sidx, i)
-        shift = _const_int(x) if x is not None else None
-        if shift is None or shift < 0:
-            raise ExtractError("make_changes: index of `%s` in the update loop is not `i` or `i + k` (line %d)" % (sname, jst.lineno))
-    sv = ex.env.get(sname, POISON)
-    if sv[0] != "gath":
-        raise ExtractError("make_changes: `%s` is not a gathered-and-broadcast list of per-rank counts (%s)" % (sname, sv[0]))
-    count = _need_ix(sv[1], "make_changes: per-rank value gathered into `%s`" % sname)
-    # inner loop: `for k in range(len(X_changes[i])): all_*[j[k]] = X_changes[i][k]`
-    inner = [s for s in loop.body[1:] if isinstance(s, ast.For)]
-    if len(inner) != 1 or len(loop.body) != 2 or not isinstance(inner[0].target, ast.Name):
-        raise ExtractError("make_changes: update loop body is not `j = …` followed by one inner loop (line %d)" % loop.lineno)
-    k = inner[0].target.id
-    it = inner[0].iter
-    okit = (_is_call(it, "range") and len(it.args) == 1 and _is_call(it.args[0], "len") and isinstance(it.args[0].args[0], ast.Subscript)
-            and isinstance(it.args[0].args[0].value, ast.Name) and it.args[0].args[0].value.id in changes
-            and isinstance(it.args[0].args[0].slice, ast.Name) and it.args[0].args[0].slice.id == i)
-    if not okit:
-        raise ExtractError("make_changes: inner loop does not run over `range(len(<changes>[i]))` (line %d)" % inner[0].lineno)
-    written = {}
-    for n in ast.walk(inner[0]):
-        if isinstance(n, ast.Assign):
-            tg = n.targets[0]
-            if not (isinstance(tg, ast.Subscript) and isinstance(tg.value, ast.Name) and tg.value.id in params[:3]
-                    and isinstance(tg.slice, ast.Subscript) and isinstance(tg.slice.value, ast.Name) and tg.slice.value.id == j
-                    and isinstance(tg.slice.slice, ast.Name) and tg.slice.slice.id == k):
-                raise ExtractError("make_changes: assignment in the update loop is not `all_*[j[k]] = …` (line %d)" % n.lineno)
-            val = n.value
-            if isinstance(val, ast.Constant) and val.value is None:
-                continue
-            if isinstance(val, ast.Call) and isinstance(val.func, ast.Attribute) and val.func.attr == "copy" and not val.args:
-                val = val.func.value
-            if not (isinstance(val, ast.Subscript) and isinstance(val.value, ast.Subscript) and isinstance(val.value.value, ast.Name)
-                    and isinstance(val.value.slice, ast.Name) and val.value.slice.id == i and isinstance(val.slice, ast.Name) and val.slice.id == k):
-                raise ExtractError("make_changes: value written in the update loop is not `<changes>[i][k]` (line %d)" % n.lineno)
-            written[tg.value.id] = changes.get(val.value.value.id)
+    targets = params[:3]
+    # the update loop: the one top-level statement that touches the three global lists
+    touching = [st for st in fn.body if not isinstance(st, ast.Return) and any(_touches(st, p) for p in params)]
+    if len(touching) != 1 or not isinstance(touching[0], ast.For):
+        raise ExtractError("make_changes: expected exactly one top-level loop that writes the global lists (and nothing else that modifies a parameter), found %d statement(s)%s" % (
+            len(touching), "".join(" line %d" % s.lineno for s in touching[:4])))
+    loop = touching[0]
+    rets = [n for n in ast.walk(fn) if isinstance(n, ast.Return)]
+    last = fn.body[-1]
+    if len(rets) != 1 or last is not rets[0] or not (isinstance(last.value, ast.Tuple) and [getattr(x, "id", None) for x in last.value.elts] == targets):
+        raise ExtractError("make_changes: does not end with its only `return all_fun, all_sym, all_inv_subs`")
+    if any(isinstance(n, (ast.Global, ast.Nonlocal)) for n in ast.walk(fn)):
+        raise ExtractError("make_changes: global statement")
+    env = {"rank": ("rank",), "size": ("size",)}
+    env.update({p: ("lparam", p) for p in params})
+    ex = Exec(fn, env, {all_fun: ("total",), str_fun: ("localLen",)}, [], mc=dict(all_fun=all_fun, str_fun=str_fun, local=[str_fun, sym_fun, inv_fun]))
+    if not ex.run(fn.body, stop=loop):
+        raise ExtractError("make_changes: update loop not reached")
+    if ex.dead:
+        raise ExtractError("make_changes: return before the update loop")
+    writes = ex.update_loop(loop, targets)
     want = {all_fun: str_fun, all_sym: sym_fun, all_inv: inv_fun}
-    if written != want:
-        raise ExtractError("make_changes: update loop writes %r, expected %r" % (written, want))
-    return dict(count=count, cmpBase=cmp_base, steps=list(sv[2]), useShift=shift)
+    got = {k: v[1] for k, v in writes.items()}
+    if got != want:
+        raise ExtractError("make_changes: update loop writes %r, expected %r" % (got, want))
+    idxs = {v[0] for v in writes.values()}
+    if len(idxs) != 1:
+        raise ExtractError("make_changes: the three lists are not written at the same index")
+    _, ch, gath, shift = idxs.pop()
+    count = _need_ix(gath[1], "make_changes: per-rank value gathered into the offsets list")
+    cmp_base = _need_ix(ch[1], "make_changes: offset in `all_fun[offset+i]`")
+    for st in fn.body[fn.body.index(loop) + 1:-1]:
+        if not (isinstance(st, ast.Expr) and _is_call(st.value, *NO_EFFECT_CALLS)) and not isinstance(st, ast.Pass):
+            raise ExtractError("make_changes: statement between the update loop and the return (line %d)" % st.lineno)
+    return dict(count=count, cmpBase=cmp_base, steps=list(gath[2]), useShift=shift)
 
 
-def read_check_results(fn):
-    # `to_change.append([i + imin, all_fun[i]])`
+def read_check_results(fn, module=None):
+    fn = norm.normalise(fn, module)
+    # the flagging loop appends `[i + imin, all_fun[i]]`
     hits = []
     for loop in fn.body:
         if not isinstance(loop, ast.For):
             continue
         for n in ast.walk(loop):
-            if (isinstance(n, ast.Call) and isinstance(n.func, ast.Attribute) and n.func.attr == "append" and len(n.args) == 1
-                    and isinstance(n.args[0], (ast.List, ast.Tuple)) and len(n.args[0].elts) == 2):
-                hits.append((loop, n))
+            ap = norm._append_of(n) if isinstance(n, (ast.Expr, ast.AugAssign)) else None
+            if ap and isinstance(ap[1], ast.List) and len(ap[1].elts) == 2:
+                hits.append((loop, ap, n))
     if len(hits) != 1:
         raise ExtractError("check_results: expected one `to_change.append([i+imin, all_fun[i]])` in a top-level loop, found %d" % len(hits))
-    loop, call = hits[0]
-    lst = call.func.value.id if isinstance(call.func.value, ast.Name) else None
-    var = loop.target.id if isinstance(loop.target, ast.Name) else None
+    loop, (lst, entry), app = hits[0]
     it = loop.iter
-    if not (var and _is_call(it, "range") and len(it.args) == 1 and _is_call(it.args[0], "len") and isinstance(it.args[0].args[0], ast.Name)):
-        raise ExtractError("check_results: flagging loop is not `for i in range(len(all_fun))` (line %d)" % loop.lineno)
-    blockname = it.args[0].args[0].id
-    el0, el1 = call.args[0].elts
+    var = alias = blockname = None
+    if isinstance(loop.target, ast.Name) and _is_call(it, "range") and isinstance(it.func, ast.Name) and len(it.args) == 1 and not it.keywords \
+            and _is_call(it.args[0], "len") and isinstance(it.args[0].func, ast.Name) and len(it.args[0].args) == 1 and isinstance(it.args[0].args[0], ast.Name):
+        var, blockname = loop.target.id, it.args[0].args[0].id
+    elif isinstance(loop.target, (ast.Tuple, ast.List)) and len(loop.target.elts) == 2 and all(isinstance(x, ast.Name) for x in loop.target.elts) \
+            and _is_call(it, "enumerate") and isinstance(it.func, ast.Name) and len(it.args) == 1 and not it.keywords and isinstance(it.args[0], ast.Name):
+        var, alias, blockname = loop.target.elts[0].id, loop.target.elts[1].id, it.args[0].id
+    if var is None or var == alias:
+        raise ExtractError("check_results: flagging loop is not `for i in range(len(all_fun))` / `for i, f in enumerate(all_fun)` (line %d)" % loop.lineno)
+    if loop.orelse:
+        raise ExtractError("check_results: flagging loop has an else clause")
+    el0, el1 = entry.elts
     off = _plus_loopvar(el0, var)
     if off is None:
-        raise ExtractError("check_results: first component of the flagged entry is not `i + offset` (line %d)" % call.lineno)
-    if not (isinstance(el1, ast.Subscript) and isinstance(el1.value, ast.Name) and el1.value.id == blockname and isinstance(el1.slice, ast.Name) and el1.slice.id == var):
-        raise ExtractError("check_results: second component of the flagged entry is not `%s[i]` (line %d)" % (blockname, call.lineno))
-    for nm in [n.id for n in ast.walk(off) if isinstance(n, ast.Name)]:
-        if _stores(loop, nm):
+        raise ExtractError("check_results: first component of the flagged entry is not `i + offset` (line %d)" % app.lineno)
+    if not ((isinstance(el1, ast.Subscript) and isinstance(el1.value, ast.Name) and el1.value.id == blockname and isinstance(el1.slice, ast.Name) and el1.slice.id == var)
+            or (alias is not None and isinstance(el1, ast.Name) and el1.id == alias)):
+        raise ExtractError("check_results: second component of the flagged entry is not `%s[i]` (line %d)" % (blockname, app.lineno))
+    body_wo_target = ast.Module(body=loop.body, type_ignores=[])
+    for nm in set(n.id for n in ast.walk(off) if isinstance(n, ast.Name)) | {var, blockname} | ({alias} if alias else set()):
+        if _stores(body_wo_target, nm):
             raise ExtractError("check_results: `%s` is assigned inside the flagging loop" % nm)
+    inside = {id(m) for m in ast.walk(app)}
+    for n in ast.walk(body_wo_target):
+        if id(n) in inside or any(m is app for m in ast.walk(n)):
+            continue
+        if _touches(n, lst):
+            raise ExtractError("check_results: `%s` is modified a second time inside the flagging loop (line %d)" % (lst, getattr(n, "lineno", 0)))
     ex = Exec(fn, {"rank": ("rank",), "size": ("size",), "nfun": ("total",)}, {}, ["nfun"])
     if not ex.run(fn.body, stop=loop):
         raise ExtractError("check_results: flagging loop not reached")
+    if ex.dead:
+        raise ExtractError("check_results: return before the flagging loop")
     blk = ex.env.get(blockname, POISON)
     if blk[0] != "block":
         raise ExtractError("check_results: `%s` is not this rank's block `comm.scatter([%s[imin[i]:imax[i]] for i in range(size)])` (%s)" % (blockname, blockname, blk[0]))
     lo = _need_ix(blk[1], "check_results: lower slice bound gathered from the ranks")
     hi = _need_ix(blk[2], "check_results: upper slice bound gathered from the ranks")
     offset = _need_ix(ex.expr(off), "check_results: offset added to the local flagged index")
-    # after the loop: gather at rank 0, chain, map through shufidx
-    after = fn.body[fn.body.index(loop) + 1:]
-    src = "\n".join(ast.unparse(s) for s in after)
-    need = ["%s = comm.gather(%s, root=0)" % (lst, lst), "%s = list(itertools.chain(*%s))" % (lst, lst), "r[0] = shufidx[r[0]]"]
-    for s in need:
-        if s not in src:
-            raise ExtractError("check_results: `%s` not found after the flagging loop" % s)
+    if ex.env.get(lst, POISON) != ("emptylist",):
+        raise ExtractError("check_results: `%s` is not an empty list when the flagging loop starts" % lst)
+    # after the loop: gather at rank 0, chain, map through the shuffle indices
+    for n in ast.walk(loop):
+        if isinstance(n, ast.Name) and isinstance(n.ctx, (ast.Store, ast.Del)):
+            ex.assign(n.id, POISON)
+    ex.assign(lst, ("flagged", offset))
+    ex.run(fn.body[fn.body.index(loop) + 1:])
+    fin = ex.env.get(lst, POISON)
+    if not (fin[0] == "rank0" and fin[1][0] == "mapped" and fin[1][1] == ("flat", ("flagged", offset))):
+        raise ExtractError("check_results: after the flagging loop `%s` is not gathered at rank 0, chained and mapped once through the shuffle indices (`r[0] = shufidx[r[0]]`)" % lst)
+    shuf, src = fin[1][2], blk[3]
+    perm = [n for n in ast.walk(fn) if isinstance(n, ast.Assign) and len(n.targets) == 1 and isinstance(n.targets[0], ast.Name) and n.targets[0].id == src
+            and isinstance(n.value, ast.ListComp) and len(n.value.generators) == 1 and not n.value.generators[0].ifs
+            and isinstance(n.value.generators[0].iter, ast.Name) and n.value.generators[0].iter.id == shuf and isinstance(n.value.generators[0].target, ast.Name)
+            and isinstance(n.value.elt, ast.Subscript) and isinstance(n.value.elt.slice, ast.Name) and n.value.elt.slice.id == n.value.generators[0].target.id]
+    if not perm:
+        raise ExtractError("check_results: `%s`, through which the flagged indices are mapped, is not the list the scattered `%s` was permuted with" % (shuf, src))
     return dict(sliceLo=lo, sliceHi=hi, offset=offset)
 
 
@@ -446,8 +936,8 @@ def lean_step(s):
 @extract.extractor("Gather")
 def gen(stage):
     tree = extract._parse(stage, FILE)
-    mc = read_make_changes(extract.find_def(tree, "make_changes"))
-    cr = read_check_results(extract.find_def(tree, "check_results"))
+    mc = read_make_changes(extract.find_def(tree, "make_changes"), tree)
+    cr = read_check_results(extract.find_def(tree, "check_results"), tree)
     t = "import ESRVerif.Model.GatherSyntax\n" + extract.header("Gather", [FILE])
     t += "open ESR.Gather\n\n"
     t += ("/-- `make_changes`: per-rank count sent to the gather, base of `all_fun[imin+i]`, rank 0's treatment of the gathered counts,\n"
